@@ -131,6 +131,9 @@ def invoke_history(case):
         if sep:
             gs = _GlyphSet.from_layer(font, copy=True)
             gs2 = _GlyphSet.from_layer(font2, copy=True)
+            if step.get("plain"):
+                # the documented interface: any dict of glyph objects (no .lib / .name attributes of its own)
+                gs, gs2 = dict(gs), dict(gs2)
         else:
             gs = gs2 = None
         rec = {"tid": tid, "filter": spec["name"], "sep": bool(sep), "lib": lib}
